@@ -182,14 +182,15 @@ def pp_sub(n, ind):
 
 # ------------------------------------------------------------------ specifications
 class Spec:
-    def __init__(self, module, qual, lean, params, ret, attrs=(), externals=(), fuel=(), init=None, doc="", nested=None):
+    def __init__(self, module, qual, lean, params, ret, attrs=(), externals=(), fuel=(), init=None, doc="", nested=None, appends=None):
         self.module, self.qual, self.lean = module, qual, lean
         self.params, self.ret = list(params), ret
         self.attrs = list(attrs)          # (python attribute of self, type) -> leading parameters
         self.externals = list(externals)  # ("env", type): implicit parameters (os.getenv)
         self.fuel = list(fuel)            # Lean text per while loop, in source order
         self.init = init                  # for __init__: attribute names whose final values are the result
-        self.nested = nested or {}        # signatures of functions defined inside: name -> (params, ret)
+        self.nested = nested or {}
+        self.appends = appends            # `self.<appends>.append(x)` as last statement: the function is rendered as returning x        # signatures of functions defined inside: name -> (params, ret)
         self.doc = doc
 
 
@@ -229,19 +230,44 @@ SPECS_SUBSTITUTION = [
          externals=[ENV], fuel=["s.length + 1"]),
 ]
 
+POS = Tup(STR, INT, INT)
+SPECS_CMDLINE = [
+    Spec("ZConfig.cmdline", "ExtendedConfigLoader.addOption", "addOption", [("spec", STR), ("pos", Opt(POS))],
+         Tup(Lst(STR), STR, POS), appends="clopts"),
+    Spec("ZConfig.cmdline", "OptionBag.basic_key", "OptionBag_basic_key", [("s", STR), ("pos", POS)], STR,
+         attrs=[("_basic_key", Fn([STR], STR))]),
+    Spec("ZConfig.cmdline", "OptionBag._normalize_case", "OptionBag_normalize_case", [("string", STR)], STR),
+]
+
 # compiled patterns reachable as module globals: (module, global name) -> Lean term of the GENERATED pattern
 REGEX_GLOBALS = {("ZConfig.substitution", "_name_match"): "Gen.nameRx"}
 
 # constructors of the standard library that stay PARAMETERS: (module, name) -> (external key, keyword order, types, result)
 EXTERNAL_CTORS = {("datetime", "timedelta"): ("timedelta", ["weeks", "days", "hours", "minutes", "seconds"], [NUM] * 5, TDELTA)}
 
-EXC_CLASSES = {"ValueError", "TypeError", "OverflowError", "IndexError", "SubstitutionSyntaxError", "SubstitutionReplacementError"}
+EXC_CLASSES = {"ValueError", "TypeError", "OverflowError", "IndexError", "ConfigurationSyntaxError", "SubstitutionSyntaxError", "SubstitutionReplacementError"}
 
 
 # ------------------------------------------------------------------ the compiler
 class Var:
     def __init__(self, lean, ty):
         self.lean, self.ty = lean, ty
+
+
+class ExcObj:
+    """an exception object held in a local variable (`e = ZConfig.ConfigurationSyntaxError(msg, *pos)`; `e.specifier = spec`;
+    `raise e`): a compile-time record of the Lean texts of its fields, not a Lean variable"""
+    ty = ("ExcObj",)
+
+    def __init__(self, cls, fields):
+        self.cls, self.fields = cls, dict(fields)
+        self.lean = "<exception object>"
+
+    def lean_term(self):
+        if self.cls == "ConfigurationSyntaxError":
+            f = self.fields
+            return "(.ConfigurationSyntaxError %s %s %s %s)" % (f["url"], f["lineno"], f["colno"], f["specifier"])
+        return "." + self.cls
 
 
 class Ctx:
@@ -412,6 +438,8 @@ class FnTrans:
             names = {"env": "os.getenv", "float": "what `float()` accepts", "timedelta": "datetime.timedelta"}
             doc += "; " + ", ".join("%s as parameter `%s`" % (names.get(en, en), header[len(spec.attrs) + i].lean)
                                     for i, (en, _) in enumerate(spec.externals))
+        if spec.appends:
+            doc += "; rendered as the function returning the item it appends to `self.%s`" % spec.appends
         doc += " -/"
         out.append(doc + "\ndef %s %s : Except PyExc %s :=\n%s\n" % (spec.lean, sig, lean_ty(self.ret, True), "\n".join(pp(body, 2))))
         return "\n".join(out)
@@ -458,6 +486,14 @@ class FnTrans:
         if isinstance(s, ast.Expr):
             if isinstance(s.value, ast.Constant) and isinstance(s.value.value, str):
                 return k(env)        # docstring
+            ap = self.spec.appends
+            v = s.value
+            if ap and isinstance(v, ast.Call) and isinstance(v.func, ast.Attribute) and v.func.attr == "append" and len(v.args) == 1 \
+                    and not v.keywords and isinstance(v.func.value, ast.Attribute) and isinstance(v.func.value.value, ast.Name) \
+                    and v.func.value.value.id == "self" and v.func.value.attr == ap:
+                if s is not self.node.body[-1]:
+                    cx.bad(s, "self.%s.append(...) that is not the last statement of the function" % ap)
+                return self.stmt(ast.Return(value=v.args[0], lineno=s.lineno), env, k)
             cx.bad(s, "expression statement")
         if isinstance(s, ast.Import):
             for al in s.names:
@@ -558,7 +594,12 @@ class FnTrans:
         cx = self.cx
         e = s.exc
         args = []
+        if isinstance(e, ast.Name) and isinstance(env.get(e.id), ExcObj):
+            return Raw(".error %s" % env[e.id].lean_term())
         if isinstance(e, ast.Call):
+            obj = self.exc_object(e, env)
+            if obj is not None and obj.cls == "ConfigurationSyntaxError":
+                return Raw(".error %s" % obj.lean_term())
             if e.keywords:
                 cx.bad(s, "keyword arguments of an exception")
             args = e.args
@@ -582,9 +623,70 @@ class FnTrans:
                                                                         coerce(cx, s, t1, y1, Opt(STR)) if y1 != Opt(STR) else t1))
         return Raw(".error .%s" % cls)
 
+    def exc_class_of(self, f):
+        if isinstance(f, ast.Name) and f.id in EXC_CLASSES:
+            return f.id
+        if isinstance(f, ast.Attribute) and isinstance(f.value, ast.Name) and f.value.id == "ZConfig" and f.attr in EXC_CLASSES:
+            return f.attr
+        return None
+
+    def exc_object(self, call, env):
+        """`Cls(msg, …)` as a compile-time exception record; the message is dropped, `ConfigurationSyntaxError` keeps
+        (url, lineno, colno) — given positionally, possibly through `*pos` — and the attribute `specifier`"""
+        cx = self.cx
+        if not isinstance(call, ast.Call):
+            return None
+        cls = self.exc_class_of(call.func)
+        if cls is None or cls == "SubstitutionReplacementError":
+            return None
+        if cls != "ConfigurationSyntaxError":
+            return ExcObj(cls, {})
+        if call.keywords or not call.args:
+            cx.bad(call, "ConfigurationSyntaxError with keywords / without message")
+        items = []
+        for a in call.args[1:]:
+            fx = []
+            if isinstance(a, ast.Starred):
+                t, ty = self.expr(a.value, env, fx)
+                if ty[0] != "Tup":
+                    cx.bad(call, "*%s of type %s" % (ast.unparse(a.value), lean_ty(ty)))
+                n = len(ty[1])
+                for i, y in enumerate(ty[1]):
+                    items.append(("%s%s" % (t, ".2" * i + (".1" if i < n - 1 else "")), y))
+            else:
+                items.append(self.expr(a, env, fx))
+            if fx:
+                cx.bad(call, "a call that may raise inside exception arguments")
+        if not 2 <= len(items) <= 3:
+            cx.bad(call, "ConfigurationSyntaxError needs (msg, url, lineno[, colno])")
+        want = [Opt(STR), Opt(INT), Opt(INT)]
+        vals = [coerce(cx, call, t, ty, w) if ty != w else t for (t, ty), w in zip(items, want)]
+        if len(vals) == 2:
+            vals.append("none")
+        return ExcObj(cls, {"url": vals[0], "lineno": vals[1], "colno": vals[2], "specifier": "none"})
+
     def assign(self, s, target, value, env, k):
         cx = self.cx
         fx = []
+        # exception objects: e = Cls(...), e.attr = value
+        if isinstance(target, ast.Name):
+            obj = self.exc_object(value, env)
+            if obj is not None:
+                env2 = dict(env)
+                env2[target.id] = obj
+                return k(env2)
+        if isinstance(target, ast.Attribute) and isinstance(target.value, ast.Name) and isinstance(env.get(target.value.id), ExcObj):
+            obj = env[target.value.id]
+            if obj.cls != "ConfigurationSyntaxError" or target.attr != "specifier":
+                cx.bad(s, "attribute %s of a %s object" % (target.attr, obj.cls))
+            t, ty = self.expr(value, env, fx)
+            if fx:
+                cx.bad(s, "a call that may raise in an exception attribute")
+            new = ExcObj(obj.cls, obj.fields)
+            new.fields["specifier"] = coerce(cx, s, t, ty, Opt(STR)) if ty != Opt(STR) else t
+            env2 = dict(env)
+            env2[target.value.id] = new
+            return k(env2)
         if isinstance(target, (ast.Tuple, ast.List)):
             t, ty = self.expr(value, env, fx)
             names = []
@@ -941,6 +1043,8 @@ class FnTrans:
         if isinstance(node, ast.Name):
             if node.id in env:
                 v = env[node.id]
+                if isinstance(v, ExcObj):
+                    cx.bad(node, "use of the exception object %s other than `raise`" % node.id)
                 return v.lean, v.ty
             cx.bad(node, "name %s is not a local variable" % node.id)
         if isinstance(node, ast.Attribute):
@@ -998,6 +1102,12 @@ class FnTrans:
             return self.call(node, env, fx)
         cx.bad(node, "expression %s" % type(node).__name__)
 
+    def peek_type(self, node, env):
+        """type of a simple expression, without emitting anything (None if it is not simple)"""
+        if isinstance(node, ast.Name) and node.id in env and not isinstance(env[node.id], ExcObj):
+            return env[node.id].ty
+        return None
+
     def compare(self, node, env, fx):
         cx = self.cx
         if len(node.ops) != 1:
@@ -1011,6 +1121,11 @@ class FnTrans:
                 if lt != STR or not all(y == STR for _, y in items):
                     cx.bad(node, "`in` on a tuple that is not of strings")
                 t = "(List.contains [%s] %s)" % (", ".join(x for x, _ in items), l)
+            elif self.peek_type(rn, env) == Lst(STR):
+                r, rt = self.expr(rn, env, fx)
+                if lt != STR:
+                    cx.bad(node, "`in` on a list of strings with a %s" % lean_ty(lt))
+                t = "(List.contains %s %s)" % (r, l)
             else:
                 r, rt = self.expr(rn, env, fx)
                 if rt != STR or not (isinstance(node.left, ast.Constant) and isinstance(node.left.value, str) and len(node.left.value) == 1):
@@ -1078,6 +1193,10 @@ class FnTrans:
                 return "(splitWS %s)" % recv, Lst(STR)
             if consts == [None, 1]:
                 return "(splitWS1 %s)" % recv, Lst(STR)
+        if name == "split" and len(args) == 2 and isinstance(consts[0], str) and len(consts[0]) == 1 and consts[1] == 1:
+            return "(Py.split1 %s %s)" % (recv, lean_char(consts[0])), Lst(STR)
+        if name == "split" and len(args) == 1 and isinstance(consts[0], str) and len(consts[0]) == 1:
+            return "(Py.splitOn %s %s)" % (recv, lean_char(consts[0])), Lst(STR)
         if name == "rsplit" and len(args) == 2 and isinstance(consts[0], str) and len(consts[0]) == 1 and consts[1] == 1:
             return "(Py.rsplit1 %s %s)" % (recv, lean_char(consts[0])), Lst(STR)
         if name in ("startswith", "endswith") and 1 <= len(args) <= 2:
@@ -1501,8 +1620,22 @@ def gen_code_substitution():
     return head + body + "\nend ZCV.Gen.Code\n"
 
 
+def gen_code_cmdline():
+    unit = _unit_for(SPECS_CMDLINE)
+    body, notes = _emit(unit, SPECS_CMDLINE, {})
+    trusted = ["* `ExtendedConfigLoader.addOption` is rendered as the function returning the item `(optpath, val, pos)` it appends to `self.clopts`",
+               "* `ZConfig.ConfigurationSyntaxError(msg, *pos)`: class, `(url, lineno, colno)` and the attribute `specifier` are kept, the message is dropped",
+               "* `OptionBag.basic_key`: `self._basic_key` (the registry's `basic-key` conversion) is a PARAMETER",
+               "* string primitives of `ZCV/Py.lean` (`Py.split1` = `s.split(c, 1)`, `Py.splitOn` = `s.split(c)`)"]
+    trusted += ["* " + n for n in notes]
+    head = HEADER % {"src": "src/ZConfig/cmdline.py", "imports": "import ZCV.Py",
+                     "what": "`ZConfig/cmdline.py` (`ExtendedConfigLoader.addOption`, `OptionBag.basic_key`, `OptionBag._normalize_case`)",
+                     "eqfile": "CodeEqCmdline", "trusted": "\n".join(trusted)}
+    return head + body + "\nend ZCV.Gen.Code\n"
+
+
 if __name__ == "__main__":
     import sys
     which = sys.argv[1:] or ["datatypes", "substitution"]
     for w in which:
-        print({"datatypes": gen_code_datatypes, "substitution": gen_code_substitution}[w]())
+        print({"datatypes": gen_code_datatypes, "substitution": gen_code_substitution, "cmdline": gen_code_cmdline}[w]())
